@@ -32,12 +32,18 @@ func capitalizeFirst(s string) string {
 
 // EvaluateExpression evaluates an expression and returns its value
 func (i *Interpreter) EvaluateExpression(expr Expr, env *Environment) (interface{}, error) {
-	depth := atomic.AddInt64(&i.evalDepth, 1)
+	// The budget belongs to the evaluation env is part of; environments
+	// built without a constructor fall back to the interpreter-wide counter.
+	counter := &i.evalDepth
+	if env != nil && env.depth != nil {
+		counter = env.depth
+	}
+	depth := atomic.AddInt64(counter, 1)
 	if depth > maxEvalDepth {
-		atomic.AddInt64(&i.evalDepth, -1)
+		atomic.AddInt64(counter, -1)
 		return nil, fmt.Errorf("maximum evaluation depth exceeded (%d levels)", maxEvalDepth)
 	}
-	defer atomic.AddInt64(&i.evalDepth, -1)
+	defer atomic.AddInt64(counter, -1)
 	switch e := expr.(type) {
 	case LiteralExpr:
 		return i.evaluateLiteral(e.Value)
@@ -121,6 +127,7 @@ func (i *Interpreter) evaluateAsyncExpr(expr AsyncExpr, env *Environment) (inter
 	// Create a child environment for the async block
 	// This captures the current scope for use in the goroutine
 	asyncEnv := NewChildEnvironment(env)
+	asyncEnv.depth = new(int64) // the block runs on its own goroutine
 
 	// Execute the async block in a separate goroutine
 	go func() {
@@ -992,7 +999,7 @@ func (i *Interpreter) executeFunction(fn Function, args []Expr, env *Environment
 	// scope, not the caller's scope: a function body must neither see nor
 	// overwrite the caller's local variables (arguments are still evaluated
 	// in the caller's environment below).
-	fnEnv := NewChildEnvironment(i.globalEnv)
+	fnEnv := newCallScope(i.globalEnv, env)
 
 	// Count required parameters (those marked required without defaults)
 	requiredCount := 0
@@ -1122,7 +1129,7 @@ func (i *Interpreter) executeGenericFunction(fn Function, typeArgs []Type, args 
 	}()
 
 	// Create a new environment for the function (module scope as parent, see executeFunction)
-	fnEnv := NewChildEnvironment(i.globalEnv)
+	fnEnv := newCallScope(i.globalEnv, env)
 
 	// Validate argument count
 	if len(argValues) != len(instantiatedFn.Params) {
@@ -1503,7 +1510,7 @@ func (i *Interpreter) callWithPipedArg(fn interface{}, pipedVal interface{}, ext
 // executeFunctionWithValues executes a user-defined function with pre-evaluated argument values
 func (i *Interpreter) executeFunctionWithValues(fn Function, argVals []interface{}, env *Environment) (interface{}, error) {
 	// Create a new environment for the function (module scope as parent, see executeFunction)
-	fnEnv := NewChildEnvironment(i.globalEnv)
+	fnEnv := newCallScope(i.globalEnv, env)
 
 	// Count required parameters (those marked required without defaults)
 	requiredCount := 0
@@ -1705,7 +1712,7 @@ func (i *Interpreter) evaluateResultMethod(result *ResultValue, method string, a
 func (i *Interpreter) callFnArg(fn interface{}, arg interface{}, env *Environment) (interface{}, error) {
 	switch f := fn.(type) {
 	case Function:
-		fnEnv := NewChildEnvironment(i.globalEnv)
+		fnEnv := newCallScope(i.globalEnv, env)
 		if len(f.Params) > 0 {
 			fnEnv.Define(f.Params[0].Name, arg)
 		}
